@@ -81,6 +81,8 @@ pub struct Stats {
     pub exec_reads_capture: bool,
     pub zero_scan: bool,
     pub labels: BTreeSet<&'static str>,
+    /// MatMul-with-constant-weight statements emitted so far
+    pub matmuls: usize,
 }
 
 #[derive(Clone, Copy, PartialEq, Eq, Debug)]
@@ -169,6 +171,7 @@ enum OpK {
     AddZero,
     MulOne,
     Recip,
+    MatMulC,
 }
 
 const OPS: &[OpK] = &[
@@ -219,6 +222,10 @@ const OPS: &[OpK] = &[
     OpK::AddZero,
     OpK::MulOne,
     OpK::Recip,
+    OpK::MatMulC,
+    OpK::MatMulC,
+    OpK::MatMulC,
+    OpK::MatMulC,
 ];
 
 #[derive(Clone, Copy)]
@@ -382,6 +389,18 @@ impl Em {
         self.add_lit(scope, sink, lit, dt, shape.to_vec(), site, visible)
     }
 
+    /// Constant [k, k] MatMul weight, values in [-1, 1] keyed by the statement site (so the two
+    /// branches of an If get different values). Always an initializer, placed first, so that the
+    /// weights of structurally similar bodies get the same node id inside their subgraphs.
+    fn weight(&mut self, scope: &mut Scope, sink: &mut Sink, k: usize, site: u32) -> Val {
+        let name = self.fresh("w");
+        let _ = self.fresh("n");
+        let seed = self.seed ^ site;
+        let data: Vec<f32> = (0..(k * k) as u32).map(|i| nice_f32(seed, i) * 0.25).collect();
+        sink.inits.insert(0, (name.clone(), TensorLit::f32(&[k as i64, k as i64], data)));
+        Val { name, dt: Dt::F, shape: vec![k, k], origin: Origin::Const, depth: scope.depth, cd: true }
+    }
+
     fn konst_ivec(&mut self, scope: &mut Scope, sink: &mut Sink, data: &[i64], site: u32) -> Val {
         let lit = TensorLit::vec_i64(data);
         self.add_lit(scope, sink, lit, Dt::I, vec![data.len()], site, false)
@@ -517,6 +536,32 @@ impl Em {
                     let z = self.konst(scope, sink, Dt::F, &[], CK::Fixed(c), site + 1, false);
                     let (x, y) = if swap { (&z, &a) } else { (&a, &z) };
                     self.out(scope, sink, op, &[x, y], vec![], Dt::F, a.shape.clone());
+                }
+                OpK::MatMulC => {
+                    // x[.., m>=2, k] x W[k, k] with a constant (prepackable) weight; the output keeps x's shape
+                    let mut a = self.operand(scope, sink, st.a, ma, Dt::F, None, false, site);
+                    let r = a.shape.len();
+                    let target: Vec<usize> = match r {
+                        0 => vec![2, 2],
+                        1 => vec![2, a.shape[0]],
+                        _ => {
+                            let mut t = a.shape.clone();
+                            if t[r - 2] < 2 {
+                                t[r - 2] = 2;
+                            }
+                            t
+                        }
+                    };
+                    if target != a.shape {
+                        let dims: Vec<i64> = target.iter().map(|d| *d as i64).collect();
+                        let sh = self.konst_ivec(scope, sink, &dims, site + 1);
+                        a = self.out(scope, sink, "Expand", &[&a, &sh], vec![], Dt::F, target);
+                    }
+                    let k = *a.shape.last().unwrap();
+                    let w = self.weight(scope, sink, k, site + 2);
+                    self.stats.matmuls += 1;
+                    self.stats.labels.insert(if scope.depth > 0 { "body:MatMul(const-weight)" } else { "parent:MatMul(const-weight)" });
+                    self.out(scope, sink, "MatMul", &[&a, &w], vec![], Dt::F, a.shape.clone());
                 }
                 OpK::Recip => {
                     let a = self.operand(scope, sink, st.a, ma, Dt::F, None, false, site);
@@ -716,6 +761,9 @@ impl Em {
                 if self.inline() {
                     let val = self.if_cond_known(form, *k, scope);
                     self.stats.labels.insert(if val { "if:then-taken" } else { "if:else-taken" });
+                    if top && !val {
+                        self.stats.labels.insert("top-if:else-taken");
+                    }
                     self.stats.labels.insert(["if:cond=bool-input", "if:cond=Not(input)", "if:cond=bool-const", "if:cond=Less(int-input,K)", "if:cond=Less(iter,K)", "if:cond=loop-cond-in"][form as usize]);
                     let (body, bpath) = if val { (then_b, path.wrapping_mul(8).wrapping_add(1)) } else { (else_b, path.wrapping_mul(8).wrapping_add(2)) };
                     let mut sc = Scope { parent: Some(&*scope), vals: vec![], depth: scope.depth + 1, iter: None, loop_in: None };
@@ -726,12 +774,15 @@ impl Em {
                 }
                 let cond_name = self.if_cond_emit(form, *k, scope, sink, site);
                 let mut graphs = Vec::new();
+                let mut mm_per_branch = [0usize; 2];
                 for (bi, body) in [then_b, else_b].into_iter().enumerate() {
+                    let mm0 = self.stats.matmuls;
                     let bpath = path.wrapping_mul(8).wrapping_add(1 + bi as u32);
                     let mut bs = Sink::default();
                     let mut sc = Scope { parent: Some(&*scope), vals: vec![], depth: scope.depth + 1, iter: None, loop_in: None };
                     self.emit_body_stmts(body, &mut sc, &mut bs, bpath, allow_nested);
                     let outs = self.if_outputs(body, &mut sc, &mut bs, &dts, bpath);
+                    mm_per_branch[bi] = self.stats.matmuls - mm0;
                     graphs.push(GraphDef {
                         nodes: bs.nodes,
                         initializers: bs.inits,
@@ -739,6 +790,9 @@ impl Em {
                         outputs: outs.iter().map(|v| ValueInfo { name: v.name.clone(), dtype: Some(v.dt.onnx()), shape: None }).collect(),
                         value_info: vec![],
                     });
+                }
+                if mm_per_branch[0] > 0 && mm_per_branch[1] > 0 {
+                    self.stats.labels.insert(if top { "if:MatMul-in-both-branches" } else { "nested-if:MatMul-in-both-branches" });
                 }
                 let else_g = graphs.pop().unwrap();
                 let then_g = graphs.pop().unwrap();
@@ -1205,6 +1259,12 @@ pub fn build(raw: &RawCase) -> BuiltCase {
             }
         }
     }
+    if labels.contains("if:MatMul-in-both-branches") && matches!(raw.cf, RawCf::If { .. }) {
+        // top-level If: the inlined pass recorded which branch runs first in its label set
+        let form_else = inl.stats.labels.contains("top-if:else-taken");
+        labels.insert(if form_else { "if:MatMul-in-both-branches+else-taken" } else { "if:MatMul-in-both-branches+then-taken" });
+    }
+    labels.remove("top-if:else-taken");
     let zero_scan = inl.stats.zero_scan;
     if zero_scan {
         labels.insert("loop:zero-iteration-with-scan-outputs");
